@@ -60,7 +60,8 @@ def run(chk, repo, tier):
         for e in p.writes():
             if root_sym(e.target) == 'out' and e.data.get('aug') == 'add':
                 n += 1
-                r = Ranges().of(e.data.get('rhs'))
+                fd = nf.attr(S('field'), 'data').single_atom()
+                r = Ranges(is_complex=lambda a: a == fd).of(e.data.get('rhs'))
                 if not r.nonneg:
                     ok, det = False, f'added value {fmt(e.data.get("rhs"))} has range {r!r}'
     chk.ob('C05-c', 'R-sign', fi.key, 'the intensity branch adds a non-negative value', ok and n > 0,
